@@ -125,9 +125,9 @@ theorem benignP_runFrame_inert (p : Prog) (h : Hist) (s : St) (f : Frame) (hf : 
   | finish sys idx => simp [Frame.inert, Frame.active, Frame.idx?] at hf
 
 theorem running_cons (f : Frame) (rest : List Frame) : running (f :: rest) = f.runSys.toList ++ running rest := by
-  cases h : f.runSys <;> simp [running, List.filterMap_cons, h]
+  cases h : f.runSys <;> simp [running, h]
 theorem waiting_cons (f : Frame) (rest : List Frame) : waiting (f :: rest) = f.waitSys.toList ++ waiting rest := by
-  cases h : f.waitSys <;> simp [waiting, List.filterMap_cons, h]
+  cases h : f.waitSys <;> simp [waiting, h]
 theorem hasActive_cons (f : Frame) (rest : List Frame) : hasActive (f :: rest) = (f.active || hasActive rest) := by
   simp [hasActive, List.any_cons]
 
@@ -239,9 +239,17 @@ end Cobweb
 
 namespace Cobweb
 
+theorem same_preBody (s : St) (sys : Nat) (k : Kind) : Same s (preBody s sys k) := by
+  unfold preBody
+  dsimp only
+  refine Same.after (same_emit _ _) ?_
+  split
+  · exact (same_setupK s k sys).trans (same_emit _ _)
+  · exact ((same_setupK s k sys).trans (same_emit _ _)).trans (same_emit _ _)
+
 theorem same_startBody (s : St) (sys : Nat) (k : Kind) : Same s (startBody s sys k) := by
-  have h1 := (same_setupK s k sys).trans (same_emit _ (.enter sys))
-  have h2 := h1.trans (same_observe _ (ewrOf ((setupK s k sys).emit (.enter sys)) sys))
+  have h1 := same_preBody s sys k
+  have h2 := h1.trans (same_observe _ (ewrOf (preBody s sys k) sys))
   unfold startBody
   dsimp only
   refine Same.after (same_foldl_emit _ _) ?_
@@ -656,10 +664,10 @@ theorem benignP_startTop (s : St) (t : Nat) (op : TopOp) : BenignP s (startTop s
   case poll => exact benignP_push he _ (inert_one rfl)
   case frameEnd => exact benignP_push he _ (inert2 rfl rfl)
   case wSysEvent sys ty pid =>
-    refine BenignP.trans_S (he.trans ((benignS_fresh _).trans (Same.benignS ?_))) (benignP_applyCmd _ _)
+    refine BenignP.trans_S (he.trans ((same_emit _ (.send pid)).benignS.trans ((benignS_fresh _).trans (Same.benignS ?_)))) (benignP_applyCmd _ _)
     same_rfl
-  case wBroadcast ty pid => exact BenignP.trans_S he (benignP_applyCmd _ _)
-  case wEntityEvent e ty pid => exact BenignP.trans_S he (benignP_applyCmd _ _)
+  case wBroadcast ty pid => exact BenignP.trans_S (he.trans (same_emit _ _).benignS) (benignP_applyCmd _ _)
+  case wEntityEvent e ty pid => exact BenignP.trans_S (he.trans (same_emit _ _).benignS) (benignP_applyCmd _ _)
   case sigPrepare e =>
     refine BenignS.toP (he.trans ((same_newArc _ e).benignS.trans (Same.benignS ?_))); same_rfl
   case sigClone a =>
